@@ -112,13 +112,42 @@ def sb_crc_expected(eng, blk):
     return V(TBytes, crc_expected(eng, blk))
 
 
+def _item_count():
+    return z3.Function('item_count', ITEM.sort(), z3.IntSort())
+
+
+def _but_last():
+    return z3.Function('item_but_last', ITEM.sort(), ITEM.sort())
+
+
+def _item_append():
+    return z3.Function('item_append', ITEM.sort(), TBytes.sort(), ITEM.sort())
+
+
+def crc_expected_rx(eng, blk, rx):
+    '''the CRC field value of a block that was received as the items rx: over those items, the last one (the CRC field)
+    replaced by a zeroed one'''
+    layer = blk.t.layers[0]
+    ct = _sel(eng, 'pkt:' + layer, 'crc_type', blk).z
+    zeroed = _crc_enc()(ct, z3.IntVal(0))
+    return _crc_enc()(ct, _crc_fn()(ct, _dumps()(_item_append()(_but_last()(rx), zeroed))))
+
+
 def sb_crc_ok(eng, blk):
-    '''a block passes its CRC check: type 0 and no CRC field, or the field equals the expected value'''
+    '''a block passes its CRC check.  A block that was built (or whose CRC was updated): type 0 and no CRC field, or the
+    field equals the CRC of the block encoded with a zeroed field.  A block as it was decoded: it was received as exactly as
+    many items as it has fields, and the CRC is the one of the items as received.'''
     layer = blk.t.layers[0]
     ct = _sel(eng, 'pkt:' + layer, 'crc_type', blk).z
     crc = _sel(eng, 'pkt:' + layer, 'crc_value', blk)
-    return mk_bool(z3.If(ct == 0, crc.t.is_none(crc.z),
-                         z3.And(z3.Not(crc.t.is_none(crc.z)), crc.t.val(crc.z) == crc_expected(eng, blk))))
+    rx = _sel(eng, 'pkt:' + layer, '_rx_items', blk)
+    rxv = rx.t.val(rx.z)
+    built = z3.If(ct == 0, crc.t.is_none(crc.z),
+                  z3.And(z3.Not(crc.t.is_none(crc.z)), crc.t.val(crc.z) == crc_expected(eng, blk)))
+    decoded = z3.And(_item_count()(rxv) == _item_count()(item_of(eng, blk)),
+                     z3.If(ct == 0, crc.t.is_none(crc.z),
+                           z3.And(z3.Not(crc.t.is_none(crc.z)), crc.t.val(crc.z) == crc_expected_rx(eng, blk, rxv))))
+    return mk_bool(z3.If(rx.t.is_none(rx.z), built, decoded))
 
 
 def sb_wire_btsd(eng, blk):
@@ -207,8 +236,28 @@ def cbor_dumps(eng, args, kwargs):
     return r
 
 
+def cb_any_op(eng, op, args):
+    '''operations on a CBOR item held as a Python list (the items a block was received as, the list build() returns)'''
+    if args[0].t != ITEM:
+        return None
+    if op == 'len':
+        n = mk_int(_item_count()(args[0].z))
+        eng.assume(n.z >= 0)
+        return n
+    if op == 'slice' and args[1] is None and args[2] == -1:
+        return V(ITEM, _but_last()(args[0].z))
+    if op == 'add':
+        from pyvc import lists as L
+        from pyvc.types import TList
+        b = args[1]
+        if isinstance(b.t, TList) and b.t.elem is TBytes and z3.is_true(z3.simplify(L.l_len(b.t, b.z) == 1)):
+            return V(ITEM, _item_append()(args[0].z, L.l_get(b.t, b.z, z3.IntVal(0))))
+    return None
+
+
 EXTERNS = {'cbor2.dumps': cbor_dumps}
-CALLBACKS = {'extobj_item': cb_extobj_item, 'extobj_call': cb_extobj_call, 'pktmethod': cb_pktmethod, 'bytes': cb_bytes}
+CALLBACKS = {'extobj_item': cb_extobj_item, 'extobj_call': cb_extobj_call, 'pktmethod': cb_pktmethod, 'bytes': cb_bytes,
+             'any_op': cb_any_op}
 
 SPECFUNCS = {
     # what every block (other than one carrying an administrative record, whose data is re-generated from
@@ -238,18 +287,23 @@ ASSUMPTIONS = [
 ]
 
 CRC_FIELDS = ['pkt:PrimaryBlock.crc_value', 'pkt:CanonicalBlock.crc_value', 'pkt:CanonicalBlock.btsd']
+# (updating a CRC also forgets the items a decoded block was received as)
+CRC_FIELDS_W = CRC_FIELDS + ['pkt:PrimaryBlock._rx_items', 'pkt:CanonicalBlock._rx_items']
 
 UPDATE = dict(
     props=['C08'],
-    cases=[{'name': 'primary', 'params': {'self': PRIM}, 'modifies': ['pkt:PrimaryBlock.crc_value']},
-           {'name': 'canonical', 'params': {'self': BLK}, 'modifies': ['pkt:CanonicalBlock.crc_value', 'pkt:CanonicalBlock.btsd']}],
+    cases=[{'name': 'primary', 'params': {'self': PRIM}, 'modifies': ['pkt:PrimaryBlock.crc_value', 'pkt:PrimaryBlock._rx_items']},
+           {'name': 'canonical', 'params': {'self': BLK}, 'modifies': ['pkt:CanonicalBlock.crc_value', 'pkt:CanonicalBlock.btsd',
+                                                                       'pkt:CanonicalBlock._rx_items']}],
     params={'keep_existing': 'Bool'},
     requires=[('crc_type_known', 'self.crc_type == 0 or self.crc_type == 1 or self.crc_type == 2', [])],
-    modifies=CRC_FIELDS,
+    modifies=CRC_FIELDS_W,
     modifies_self_only=True,
     ensures=[
         # blocks with CRC type zero carry no CRC field
         ('no_crc_field_for_type_zero', 'implies(self.crc_type == 0, self.crc_value is None)', ['C08']),
+        # from here on the CRC belongs to the current field values, not to the items the block was received as
+        ('received_items_forgotten', 'self._rx_items is None', ['C08']),
         # otherwise the field is the CRC of the block encoded with a zeroed CRC field (unless asked to keep a set one)
         ('crc_of_block_with_zeroed_field',
          'implies(not (self.crc_type == 0) and not (keep_existing and old(self.crc_value) is not None), crc_ok(self))', ['C08']),
@@ -330,7 +384,7 @@ FUNCS = {
     'bp.encoding.bundle:Bundle.update_all_crc': dict(
         self='Pkt[Bundle]', props=['C08'],
         requires=[('crc_types_known', 'crc_types_known(self)', [])],
-        modifies=CRC_FIELDS + ['pkt:PrimaryBlock.bundle_flags', 'pkt:CanonicalBlock.type_code', 'ghost.crc_ok'],
+        modifies=CRC_FIELDS_W + ['pkt:PrimaryBlock.bundle_flags', 'pkt:CanonicalBlock.type_code', 'ghost.crc_ok'],
         ghost_exit=['ghost.crc_ok = set_add(ghost.crc_ok, self)'],
         loops={0: dict(invariant=[
             ('primary_done', 'self.primary is None or crc_ok(unwrap(self.primary))'),
